@@ -9,12 +9,21 @@ Part A defines the grammar of well-formed control sequences *independently of th
 (byte ranges of ECMA-48 and the UTF-8 framing rule for string payloads). Part B proves, for
 EVERY continuation `rest` of the byte stream:
 
-* `framing`      the tokeniser yields exactly one token that spans exactly the sequence;
-* `no_draw`      that token is never a text (nor a C0) token, and an unrecognised one leaves
-                 both grids (indeed everything) unchanged;
-* `unknown_noop` a token outside the finite table `recognised` changes no state, emits nothing;
-* `osc_payload`  OSC 0/2/6/7 deliver exactly their payload bytes as view strings 0/0/1/2;
-* `run_*`        an unrecognised well-formed sequence in front of any `post` leaves no residue.
+* B1 `csi_framing`, `esc_framing`, `osc_num_framing`, `osc_malformed_framing`, `osc_framing`,
+     `dcs_framing`, `framing`: the tokeniser yields exactly one token that spans exactly the
+     sequence (and the token's prefix / clean flag / final / number / payload are those the
+     grammar says);
+* B2 `no_draw`, `control_no_text_event`, `no_text_event`: that token is never a text (nor a C0)
+     token; an unrecognised one leaves both grids (indeed everything) unchanged; no control
+     token ever reports drawn text;
+* B3 `unknown_noop`: a token outside the finite table `recognised` changes no state and emits
+     nothing; `recognisedCsi_tight`, `recognised_other_tight`: the table cannot be shrunk;
+* B4 `osc_payload`, `osc_payload_itoa`, `osc_payload_pointwise`: OSC 0/2/6/7 deliver exactly
+     their payload bytes as view strings 0/0/1/2;
+* B5 `run_skip`, `run_unrecognised`, `run_csi_unrecognised`, `run_esc_unrecognised`, `run_dcs`,
+     `run_osc_unknown_number`, `run_osc_malformed`, `run_osc_payload`, `run_embedded`,
+     `embedded_no_residue`: in the read loop `run` an unrecognised well-formed sequence in front of
+     any `post` (and after any ASCII text `pre`) leaves no residue.
 -/
 namespace TM.C09
 open TM
@@ -86,14 +95,21 @@ def isContB (b : UInt8) : Bool := 0x80 ≤ b && b ≤ 0xBF
       (and not BEL when `noBel`, i.e. in an OSC) — this covers all of ASCII except ESC (BEL),
       and also stray bytes 0x80–0xC1 (≠ 0x9c) and 0xF5–0xFF;
     * multi-byte characters: a lead byte 0xC2–0xF4 followed by exactly the number of
-      continuation bytes (0x80–0xBF, *including 0x9c*) it announces.
-    Every well-formed UTF-8 text without ESC (BEL) is in this language. -/
+      continuation bytes (0x80–0xBF, *including 0x9c*) it announces;
+    * truncated multi-byte characters: a lead byte followed by fewer continuation bytes
+      (again including 0x9c) than announced, provided more payload follows (its next byte is
+      then not a continuation byte).
+    Every well-formed UTF-8 text without ESC (BEL) is in this language, and so is every byte
+    string without ESC (BEL) and without 0x9c that does not end in a truncated character. -/
 inductive Payload (noBel : Bool) : Bytes → Prop
   | nil : Payload noBel []
   | plain (b : UInt8) (p : Bytes) : b ≠ 0x1b → b ≠ 0x9c → (noBel = true → b ≠ 7) → contCount b = 0 →
       Payload noBel p → Payload noBel (b :: p)
   | multi (l : UInt8) (cs p : Bytes) : 0 < contCount l → cs.length = contCount l →
       (∀ c ∈ cs, isContB c = true) → Payload noBel p → Payload noBel (l :: (cs ++ p))
+  | trunc (l : UInt8) (cs : Bytes) (b : UInt8) (p : Bytes) : 0 < contCount l → cs.length < contCount l →
+      (∀ c ∈ cs, isContB c = true) → isContB b = false → Payload noBel (b :: p) →
+      Payload noBel (l :: (cs ++ b :: p))
 
 /-- string terminators: BEL (OSC only), `ESC \`, and the 8-bit ST 0x9c -/
 inductive StrTerm (bel : Bool) : Bytes → Prop
@@ -381,6 +397,17 @@ theorem head_rev_append (cs : Bytes) (l : UInt8) (acc : Bytes) (x : UInt8)
     have : y ∈ cs.reverse := by rw [hr]; simp
     exact Or.inl (by rw [← h]; simpa using this)
 
+set_option maxRecDepth 100000 in
+theorem noncont_facts : ∀ b : UInt8, isContB b = false → b ≠ 0x9c := by
+  apply forall_u8; decide
+
+/-- before a byte that is not a continuation byte the UTF-8 counter does not matter -/
+theorem strPayload_need_irrel (bel : Bool) (b : UInt8) (r acc : Bytes) (k n : Nat) (hb : isContB b = false) :
+    strPayload bel (b :: r) acc k n = strPayload bel (b :: r) acc 0 n := by
+  have h9 := noncont_facts b hb
+  have hc : isCont b = false := by rw [isCont_eq]; exact hb
+  simp only [strPayload, h9, hc, false_and, Bool.false_eq_true, if_false]
+
 /-- a payload of the grammar is consumed whole, the UTF-8 counter is back to 0 after it, and
     the last byte read is not ESC -/
 theorem strPayload_payload (bel : Bool) (p : Bytes) (hp : Payload bel p) :
@@ -415,6 +442,26 @@ theorem strPayload_payload (bel : Bool) (p : Bytes) (hp : Payload bel p) :
     rw [← hlen, Nat.sub_self, e]
     simp only [List.reverse_cons, List.reverse_append, List.append_assoc, List.singleton_append,
       List.length_cons, List.length_append]
+    refine ⟨by congr 1; omega, ?_⟩
+    simpa using hh
+  | trunc l cs b p hl hlen hcs hb _ ih =>
+    intro acc n tl hacc
+    obtain ⟨f7, f9c, f5c, f1b, fc⟩ := lead_facts l hl
+    rw [List.cons_append, strPayload_step bel l _ acc 0 n (fun _ => f7) (fun h => absurd h f9c) (fun _ => hacc)]
+    have : ¬ (isCont l = true ∧ 0 > 0) := fun h => absurd h.2 (by omega)
+    rw [if_neg this, contCount_eq, List.append_assoc,
+      strPayload_conts bel cs (l :: acc) (contCount l) (n + 1) (b :: p ++ tl) hcs (by omega),
+      List.cons_append, strPayload_need_irrel bel b _ _ _ _ hb]
+    have hacc' : (cs.reverse ++ l :: acc).head? ≠ some 0x1b := by
+      intro h
+      rcases head_rev_append cs l acc _ h with h | h
+      · exact (cont_facts _ (hcs _ h)).2.2 rfl
+      · exact f1b h.symm
+    obtain ⟨e, hh⟩ := ih (cs.reverse ++ l :: acc) (n + 1 + cs.length) tl hacc'
+    rw [List.cons_append] at e
+    rw [e]
+    simp only [List.reverse_cons, List.reverse_append, List.append_assoc,
+      List.length_cons, List.length_append, List.cons_append, List.nil_append]
     refine ⟨by congr 1; omega, ?_⟩
     simpa using hh
 
@@ -476,6 +523,7 @@ theorem payload_cons_inv (bel : Bool) (b : UInt8) (q : Bytes) (h : Payload bel (
   cases h with
   | plain _ _ h1 h2 h3 _ hq => exact ⟨hq, h1, h2, h3⟩
   | multi _ cs p hl => omega
+  | trunc _ cs c p hl => omega
 
 /-- the first byte of a non-empty payload is never a terminator byte -/
 theorem payload_head (bel : Bool) (b : UInt8) (q : Bytes) (h : Payload bel (b :: q)) :
@@ -483,6 +531,9 @@ theorem payload_head (bel : Bool) (b : UInt8) (q : Bytes) (h : Payload bel (b ::
   cases h with
   | plain _ _ h1 h2 h3 _ hq => exact ⟨h1, h2, h3⟩
   | multi _ cs p hl =>
+    obtain ⟨f7, f9c, _, f1b, _⟩ := lead_facts b hl
+    exact ⟨f1b, f9c, fun _ => f7⟩
+  | trunc _ cs c p hl =>
     obtain ⟨f7, f9c, _, f1b, _⟩ := lead_facts b hl
     exact ⟨f1b, f9c, fun _ => f7⟩
 
@@ -905,6 +956,28 @@ theorem osc_num_framing (ds p term : Bytes) (hd : ∀ d ∈ ds, isDigitB d = tru
   rw [hbytes, next_esc, parseEsc_osc, parseOSC_digits ds 0x3b _ 2 hd (by decide), if_pos rfl,
     strPayload_run true p term hp ht [] _ rest (by simp), hlen]
   simp
+
+/-- OSC whose number is followed by something other than `;` or a terminator (`ESC ] 1 3 3 x … BEL`,
+    `ESC ] t e x t BEL`): still consumed up to and including its terminator, and marked ill-formed. -/
+theorem osc_malformed_framing (ds : Bytes) (b : UInt8) (m term : Bytes) (hd : ∀ d ∈ ds, isDigitB d = true)
+    (hb : isDigitB b = false) (hsep : b ≠ 0x3b) (hp : Payload true (b :: m)) (ht : StrTerm true term) (rest : Bytes) :
+    next (oscBytes (ds ++ b :: m) term ++ rest) =
+      .tok (.osc (oscNumber ds) [] false) (oscBytes (ds ++ b :: m) term).length := by
+  have hbytes : oscBytes (ds ++ b :: m) term ++ rest = 0x1b :: 0x5d :: (ds ++ b :: (m ++ term ++ rest)) := by
+    simp [oscBytes]
+  have hlen : (oscBytes (ds ++ b :: m) term).length = 2 + ds.length + (b :: m).length + term.length := by
+    simp [oscBytes]; omega
+  obtain ⟨h1b, h9c, h7⟩ := payload_head true b m hp
+  rw [hbytes, next_esc, parseEsc_osc, hlen, parseOSC_digits ds b _ 2 hd hb]
+  have hnt : ¬ (b = 7 ∨ b = 0x9c) := fun h => h.elim (h7 rfl) h9c
+  rw [if_neg hsep, if_neg hnt]
+  -- the malformed branch is `strPayload` one step into the payload `b :: m`
+  have hstep := strPayload_step true b (m ++ term ++ rest) [] 0 (2 + ds.length) h7
+    (fun h => absurd h h9c) (fun _ => by simp)
+  have : ¬ (isCont b = true ∧ 0 > 0) := fun h => absurd h.2 (by omega)
+  rw [if_neg this] at hstep
+  rw [← hstep, ← List.cons_append, ← List.cons_append,
+    strPayload_run true (b :: m) term hp ht [] _ rest (by simp)]
 
 /-- OSC framing in general (any payload of the language after `ESC ]`, any terminator): one
     `osc` token spanning exactly the sequence. Moreover the token is marked well-formed only
@@ -1336,6 +1409,13 @@ theorem run_osc_unknown_number (ds p term : Bytes) (hd : ∀ d ∈ ds, isDigitB 
   · simpa using hu
   · decide
 
+/-- OSC whose number is not followed by `;` or a terminator: no residue. -/
+theorem run_osc_malformed (ds : Bytes) (b : UInt8) (m term : Bytes) (hd : ∀ d ∈ ds, isDigitB d = true)
+    (hb : isDigitB b = false) (hsep : b ≠ 0x3b) (hp : Payload true (b :: m)) (ht : StrTerm true term)
+    (cw : Nat → Nat) (t : Term) (post : Bytes) :
+    run cw t (oscBytes (ds ++ b :: m) term ++ post) = run cw t post :=
+  run_skip cw t _ post _ (osc_malformed_framing ds b m term hd hb hsep hp ht post) rfl
+
 /-- OSC 0/2/6/7 in the read loop: exactly one `vstr i p` event in front of what `post` produces
     from the state with view string `i` set to `p`; nothing of the sequence is left. -/
 theorem run_osc_payload (ds : Bytes) (hd : ∀ d ∈ ds, isDigitB d = true) (num i : Nat) (hnum : decVal ds = num)
@@ -1457,6 +1537,20 @@ example (rest : Bytes) :
       .tok (.osc 2 [0x61, 0xE2, 0x9C, 0x9C, 0x62] true) 11 :=
   (osc_payload_itoa 2 0 rfl _ [0x1b, 0x5c] payload_9c .st rest id (Term.init .keep 1 1)).1
 
+/-- a truncated character inside a payload: `a E2 9C b` (the 0x9c is still a continuation byte) -/
+theorem payload_trunc : Payload true [0x61, 0xE2, 0x9C, 0x62] :=
+  .plain 0x61 _ (by decide) (by decide) (by decide) (by decide)
+    (.trunc 0xE2 [0x9C] 0x62 [] (by decide) (by decide) (by decide) (by decide)
+      (.plain 0x62 _ (by decide) (by decide) (by decide) (by decide) .nil))
+example (rest : Bytes) :
+    next ([0x1b, 0x5d, 0x37, 0x3b, 0x61, 0xE2, 0x9C, 0x62, 0x07] ++ rest) =
+      .tok (.osc 7 [0x61, 0xE2, 0x9C, 0x62] true) 9 :=
+  (osc_payload_itoa 7 2 rfl _ [7] payload_trunc (.bel rfl) rest id (Term.init .keep 1 1)).1
+
+/-- but a payload *ending* in a truncated character swallows an 8-bit ST: the language rightly
+    excludes it -/
+example : next [0x1b, 0x5d, 0x30, 0x3b, 0xE2, 0x9c] = .need := by decide
+
 /-- the restrictions of the payload language are necessary: a stand-alone 0x9c ends the string
     early (the rest is then drawn as text), and so does BEL -/
 example : next [0x1b, 0x5d, 0x30, 0x3b, 0x61, 0x9c, 0x62, 0x07] = .tok (.osc 0 [0x61] true) 6 := by decide
@@ -1490,6 +1584,12 @@ example (cw : Nat → Nat) (t : Term) (post : Bytes) :
     run cw t (oscBytes ([0x31, 0x33, 0x33] ++ 0x3b :: [0x74, 0x69, 0x74, 0x6c, 0x65]) [7] ++ post) = run cw t post :=
   run_osc_unknown_number [0x31, 0x33, 0x33] _ [7] (by decide) payload_title (.bel rfl) (by decide) cw t post
 
+/-- `ESC ] t i t l e ST`: no number, no `;` — skipped whole -/
+example (cw : Nat → Nat) (t : Term) (post : Bytes) :
+    run cw t ([0x1b, 0x5d, 0x74, 0x69, 0x74, 0x6c, 0x65, 0x1b, 0x5c] ++ post) = run cw t post :=
+  run_osc_malformed [] 0x74 [0x69, 0x74, 0x6c, 0x65] [0x1b, 0x5c] (by decide) (by decide) (by decide)
+    payload_title .st cw t post
+
 /-- twenty parameters: `ESC [ 1;1;1;1;1;1;1;1;1;1;1;1;1;1;1;1;1;1;1;1 z` -/
 example : CsiWF ((List.replicate 19 [0x31, 0x3b]).flatten ++ [0x31]) [] 0x7a := ⟨by decide, by decide, by decide⟩
 
@@ -1498,6 +1598,7 @@ end Examples
 #print axioms TM.C09.csi_framing
 #print axioms TM.C09.esc_framing
 #print axioms TM.C09.osc_num_framing
+#print axioms TM.C09.osc_malformed_framing
 #print axioms TM.C09.osc_framing
 #print axioms TM.C09.dcs_framing
 #print axioms TM.C09.framing
@@ -1516,6 +1617,7 @@ end Examples
 #print axioms TM.C09.run_esc_unrecognised
 #print axioms TM.C09.run_dcs
 #print axioms TM.C09.run_osc_unknown_number
+#print axioms TM.C09.run_osc_malformed
 #print axioms TM.C09.run_osc_payload
 #print axioms TM.C09.run_embedded
 #print axioms TM.C09.embedded_no_residue
